@@ -232,12 +232,11 @@ dataLoop:
 					}
 					k.node.SetPledgeDebt(ctx, pledgeDebt)
 				}
-				totalPledgeChange = totalPledgeChange.Add(extraPledge.Amount)
 
 				shard.Pledge = newPledge
 
 				pledge, _ := k.node.GetPledge(ctx, shard.Sp)
-				pledge.TotalStoragePledged = pledge.TotalStoragePledged.Add(extraPledge)
+				pledge.TotalShardPledged = pledge.TotalShardPledged.Add(extraPledge)
 				k.node.SetPledge(ctx, pledge)
 			}
 
